@@ -35,14 +35,21 @@ def ref_eval(t, env):
     raise ValueError(op)
 
 
+# sub-expressions may be as large as the evaluators' 64-bit domain allows; only the final value is bounded by the use
+INNER = 1 << 63
+BIG = [2 ** 53 + 1, 2 ** 60 - 3, 2 ** 62 + 7, 2 ** 63 - 1, 10 ** 18 + 1, 2 ** 40 + 1, 2 ** 32, 2 ** 31 - 1, 0x123456789ABCDEF]
+
+
 def gen_tree(rng, env, depth=3, want_nonneg=False, ops=('+', '-', '*', '/', '<<', '>>'), bound=1 << 40):
     """random tree whose sub-evaluations satisfy the property's side conditions
     (division: non-negative operands, non-zero divisor; shift counts 0..8; |values| < bound)"""
     for _ in range(50):
         t = _gen(rng, env, depth, ops)
         try:
-            v = _checked(t, env, bound)
+            v = _checked(t, env, INNER)
         except ValueError:
+            continue
+        if abs(v) >= bound:
             continue
         if want_nonneg and v < 0:
             continue
@@ -56,6 +63,8 @@ def _gen(rng, env, depth, ops):
     if depth == 0 or r < 0.25:
         if env and rng.random() < 0.4:
             return ['name', rng.choice(sorted(env))]
+        if rng.random() < 0.12:
+            return ['num', rng.choice(BIG)]
         return ['num', rng.choice([0, 1, 2, 3, 4, 5, 7, 8, 10, 16, 64, 255, 256, 1000, 65536])]
     if r < 0.33:
         return ['neg', _gen(rng, env, depth - 1, ops)]
